@@ -168,6 +168,16 @@ CLAIMED.update({
     ),
 })
 
+CLAIMED.update({
+    "C17": (
+        "sibling agreement between tinyfo and fc: constant evaluation of operator/keyword tables, closed forms of the precedence loop and driver, reviewed closed forms (cell identity kept) of tinyfo's 18 emitters for the shared constructs against fc's emission templates",
+        "Behavioural equivalence of the two transpilers is NOT decided. Decided: the two implementations of one language agree on operator ranks/Go operators/keywords, on the three precedence-climbing facts, on output naming, and on the emission shape of every shared construct "
+        "(fields, arguments, elements, statements, arms in source order; partial-application closure; conditionals over lazy blocks). The directory is frozen, so any change of an emitter is reported.",
+        "tinyfo's parser, its per-call type-parameter resolution and the behaviour of emitted programs are not decided; fc's own templates (C01/C03/C08) are the reference.",
+        "DESIGN.md §3 C17",
+    ),
+})
+
 NOT_APPLICABLE = {
 }
 
